@@ -103,13 +103,15 @@ CHECKS = [
  chk("C08",
      "Lean theorems: C08_swap_cm / C08_swap_rates (at every threshold incl. +-inf the matrix of swap() is the original with "
      "rows and columns exchanged, hence FPR/TPR/TOPR <-> FNR/TNR/TONR), C08_negate_cm (negated scores + flipped score_class: "
-     "same matrix at the negated threshold), C08_affine_cm (a>0: same matrix at a*t+b), C08_affine_threshold (every "
-     "threshold returned by threshold setting is mapped by t -> a*t+b: all metrics, methods, targets, easy counts; sentinels "
-     "via an oracle-compatibility hypothesis) — all for arbitrary lists. Tied to /repo by running the original, swap(), the "
-     "negated and an affine image through the real API, tying each to the model (op cm) and evaluating the relations on the "
-     "observed outputs; threshold negation, EER and AUC equivariance are evaluated as relations between two real runs.",
-     BASE_NOTE + "Negation equivariance of thresholds (exact only away from the asymmetric special-case regions; a few ulp in "
-     "floats), and EER/AUC equivariance are evaluated on every case, not proved; EER relations are claimed for tie-free scores.",
+     "same matrix at the negated threshold), C08_negate_threshold(_methods/_make) (every threshold of the negated object is the "
+     "negated threshold, all metrics, easy counts, even all three methods, for oracles with down(-x) = -up(x); outside one "
+     "explicitly characterised stretch of targets next to the boundary where the two results differ by exactly one nextafter "
+     "step: C08_negate_threshold_excluded; the driver's float64 nextafter satisfies the oracle hypothesis), C08_affine_cm, "
+     "C08_affine_threshold (a>0: same matrices at a*t+b, every threshold mapped by t -> a*t+b). Tied to /repo by running the "
+     "original, swap(), the negated and an affine image through the real API, tying each to the model (op cm) and evaluating "
+     "the relations on the observed outputs; EER and AUC equivariance are evaluated as relations between two real runs.",
+     BASE_NOTE + "EER/AUC equivariance is evaluated on every case, not proved as such (C07 proves AUC = Mann-Whitney for each "
+     "object); EER relations are claimed for tie-free scores; float thresholds compared up to a few ulp.",
      "Lean 4 proof about a hand-written model + metamorphic correspondence check", "DESIGN.md §5 C08"),
  chk("C09",
      "Lean theorems: C09_cm (for ALL score lists, counts k,m, existing easy counts, 4 configurations and every threshold at "
@@ -143,14 +145,17 @@ CHECKS = [
  chk("C06",
      "Lean theorems about a line-by-line model of eer()/_find_root: C06_paths (the five ways eer() can return), C06_range "
      "(0 <= e <= min(hard_pos_ratio, hard_neg_ratio) <= 1 on every path: the min/max mutant), C06_zero (for ALL inputs incl. "
-     "ties a reported EER of exactly 0 comes only from the strict-separation shortcut and its threshold has FP = FN = 0; the "
-     "bisection never returns 0), C06_fpr_side / C06_fpr_side_of_eer (tie-free negatives: |FPR(t) - e| <= 1/N_neg wherever the "
-     "threshold is set at FPR = e, i.e. the bisection path and the hard_pos_ratio cap; via C02_within), C06_fnr_side_at_fnr "
-     "(FNR cap path). Tied to /repo by comparing (t, e) with the model on tie-free data and evaluating the Lean predicates "
+     "ties a reported EER of exactly 0 comes only from the strict-separation shortcut and its threshold has FP = FN = 0), "
+     "C06_fpr_side / C06_fpr_side_of_eer (tie-free negatives: |FPR(t) - e| <= 1/N_neg wherever the threshold is set at FPR = e), "
+     "C06_fnr_side_at_fnr, c06f_findRoot_width / _tol (bracket invariant, width halving, exit by tolerance within 34 steps), "
+     "c06f_eerF_mono, C06_bisect_crossing (the returned e lies in a sign-change bracket of width < 1e-10), "
+     "C06_fnr_side_sandwich (|FNR(t) - e| <= 1/N_pos + delta when t lies between the FNR-thresholds of e -+ delta). The "
+     "slack-free FNR statement is REFUTED in the exact model (C06_fnr_side_statement_false: excess ~1e-11 < xtol), which is why "
+     "the spec is evaluated with eps = 1e-9. Tied to /repo by comparing (t, e) with the model on tie-free data and evaluating "
      "rangeOK / crossingOK / zeroOK on the implementation's own matrix at its returned threshold on every case.",
-     BASE_NOTE + "PARTIAL: the FNR side of the crossing on the bisection path is stated (C06_fnr_side_statement), not proved; "
-     "it and the equivariance clauses are evaluated on every sampled case. With ties the EER value is not compared with the "
-     "exact model (float noise on flat stretches decides the branch). np.isclose by its formula; bisection with fuel 64.",
+     BASE_NOTE + "PARTIAL: the data-dependent bound on delta that connects the crossing bracket to the FNR sandwich is not "
+     "formalised; the FNR side and the equivariance clauses are evaluated on every sampled case. With ties the EER value is "
+     "not compared with the exact model. np.isclose by its formula; bisection with fuel 64.",
      "Lean 4 proof (partial) about a hand-written model + differential correspondence check", "DESIGN.md §5 C06"),
  chk("C20",
      "Lean theorems over exact rationals, for any inverse pair Phi/PhiInv, any sqrt and any lawful generator: C20_inverse (fnr o "
